@@ -15,6 +15,7 @@
 (***************************************************************************)
 EXTENDS XiXiKV
 
+CONSTANT Focus     \* "any", or "merge": process deaths are generated only while a Merge or an adoption is under way
 VARIABLE hist
 gvars == <<vars, hist>>
 
@@ -37,6 +38,7 @@ GInit == Init /\ hist = <<>>
 \* teach little, so the generator takes them only once the run is warm (this restricts which behaviours are
 \* generated, not what the engine may do: the exhaustive configurations of XiXiKV have no such guard).
 Warm == nops >= 3 \/ nfaults > 0 \/ nrestarts > 0 \/ st # "open"
+CrashHere == Focus # "merge" \/ merge.on \/ st = "adopt"
 Losable == \E f \in Fids : durable[f] < Len(dir[f])
 
 GCore ==
@@ -54,7 +56,7 @@ GCore ==
   \/ MergeScan /\ L("mergescan", ScanKind, 0)
   \/ MergeMark /\ L("mergemark", 0, 0)
   \/ Warm /\ CloseCall /\ L("close", 0, 0)
-  \/ Warm /\ Crash /\ L("crash", 0, 0)
+  \/ Warm /\ CrashHere /\ Crash /\ L("crash", 0, 0)
   \/ Losable /\ PowerLoss /\ hist' = Append(hist, CutLabel)
   \/ AdoptStep /\ L("adoptstep", 0, 0)
   \/ OpenLoad /\ L("openload", 0, 0)
